@@ -70,7 +70,7 @@ func genC07(t *rapid.T) C07Case {
 	c.SPCert = rapid.SampledFrom([]string{"valid", "valid", "valid", "valid", "empty", "garbage", "nocert-tls"}).Draw(t, "spCert")
 	c.StoreKind = rapid.SampledFrom([]string{"tls", "custom"}).Draw(t, "storeKind")
 	c.Plain = rapid.SampledFrom([]string{"signed", "signed", "unsigned", "forged", "attacker-signed", "non-assertion", "nested-wrapper"}).Draw(t, "plain")
-	c.Place = rapid.SampledFrom([]string{"direct", "direct", "direct", "nested", "in-forged", "direct+nested-after", "nested-before+direct", "direct+direct-after", "direct-before+direct"}).Draw(t, "place")
+	c.Place = rapid.SampledFrom([]string{"direct", "direct", "direct", "nested", "in-forged", "direct+nested-after", "nested-before+direct", "direct+direct-after", "direct-before+direct", "in-encrypted-sibling", "in-encrypted-keyinfo", "in-encrypted-first"}).Draw(t, "place")
 	c.RespSig = rapid.SampledFrom([]string{"none", "none", "trusted", "attacker"}).Draw(t, "respSig")
 	c.Recip = rapid.SampledFrom([]string{"absent", "absent", "sp", "other", "undecodable", "sp-otherwindow"}).Draw(t, "recip")
 	c.IdPWide = rapid.Bool().Draw(t, "idpWide")
@@ -171,7 +171,7 @@ func (c *C07Case) build() error {
 		ext := etree.NewElement("samlp:Extensions")
 		ext.AddChild(ea)
 		root.AddChild(ext)
-	case "direct+nested-after", "nested-before+direct", "direct+direct-after", "direct-before+direct":
+	case "direct+nested-after", "nested-before+direct", "direct+direct-after", "direct-before+direct", "in-encrypted-sibling", "in-encrypted-keyinfo", "in-encrypted-first":
 		// a genuine trusted-signed assertion, encrypted, as direct child — plus this case's encrypted element
 		// one level down (in Extensions), after or before it
 		g2 := gridGenuine(c.SP, 1, "none")
@@ -188,7 +188,7 @@ func (c *C07Case) build() error {
 		det2, _ := h.DetachedCopy(a2)
 		e2 := c.Enc
 		e2.Recipient, e2.RecipRaw = nil, ""
-		if strings.Contains(c.Place, "direct-") {
+		if strings.Contains(c.Place, "direct-") || strings.HasPrefix(c.Place, "in-encrypted") {
 			// both are direct children; the genuine one carries its key in-line and shares the
 			// content-encryption key and algorithm with this case's element (nothing forbids an IdP,
 			// or anyone else, to re-use a session key): state kept from one element must not serve the next
@@ -197,6 +197,25 @@ func (c *C07Case) build() error {
 		ea2, err := e2.EncryptElement(h.Serialize(det2, h.Layout{}), g.NS)
 		if err != nil {
 			return err
+		}
+		if strings.HasPrefix(c.Place, "in-encrypted") {
+			// this case's element parked INSIDE the genuine direct-child EncryptedAssertion (which decrypts fine):
+			// beside its EncryptedData, in front of it, or inside EncryptedData/KeyInfo
+			ed := findFirst(ea2, "EncryptedData")
+			switch c.Place {
+			case "in-encrypted-sibling":
+				ea2.AddChild(ea)
+			case "in-encrypted-first":
+				ea2.InsertChildAt(0, ea)
+			default:
+				if ki := findFirst(ed, "KeyInfo"); ki != nil {
+					ki.AddChild(ea)
+				} else {
+					ed.AddChild(ea)
+				}
+			}
+			root.AddChild(ea2)
+			break
 		}
 		var other etree.Token = ea
 		if !strings.Contains(c.Place, "direct-") {
@@ -399,7 +418,7 @@ func TestC07_Grid(t *testing.T) {
 		}
 	}
 	// every placement x recipient naming x key placement, in the valid window
-	for _, place := range []string{"direct", "nested", "in-forged", "direct+nested-after", "nested-before+direct", "direct+direct-after", "direct-before+direct"} {
+	for _, place := range []string{"direct", "nested", "in-forged", "direct+nested-after", "nested-before+direct", "direct+direct-after", "direct-before+direct", "in-encrypted-sibling", "in-encrypted-keyinfo", "in-encrypted-first"} {
 		for _, recip := range []string{"absent", "sp", "other", "undecodable", "sp-otherwindow"} {
 			for _, detached := range []bool{false, true} {
 				for _, plain := range []string{"signed", "unsigned", "forged"} {
